@@ -12,7 +12,7 @@ import (
 
 type unpacker struct {
 	packFormatReader
-	pack   []byte     // The packed data
+	pack   string     // The packed data
 	j      int        // Current index in the packed data
 	values []rt.Value // Values unpacked so far
 	intVal int64      // Last unpacked integral value (for options 'i' and 'I')
@@ -29,7 +29,7 @@ func UnpackString(format, pack string, j int, budget uint64) (vals []rt.Value, n
 			byteOrder:    nativeEndian,
 			maxAlignment: defaultMaxAlignement,
 		},
-		pack: []byte(pack),
+		pack: pack,
 		j:    j,
 
 		budget: budget,
